@@ -99,6 +99,93 @@ func (p c09Pkg) walk(fd *ast.FuncDecl, depth int, visit func(n ast.Node, inHelpe
 	rec(fd.Body, depth, false, map[string]bool{})
 }
 
+// helperOf returns the same-package function a call names (a plain identifier, or a selector on an identifier), nil otherwise
+func (p c09Pkg) helperOf(ce *ast.CallExpr) *ast.FuncDecl {
+	switch f := ce.Fun.(type) {
+	case *ast.Ident:
+		return p[f.Name]
+	case *ast.SelectorExpr:
+		if _, ok := f.X.(*ast.Ident); ok {
+			return p[f.Sel.Name]
+		}
+	}
+	return nil
+}
+
+// containsDeep: does n, or the body of a same-package helper called from it (depth levels deep), hold a node satisfying pred?
+func (p c09Pkg) containsDeep(n ast.Node, depth int, pred func(ast.Node) bool) bool {
+	found := false
+	ast.Inspect(n, func(m ast.Node) bool {
+		if m == nil || found {
+			return !found
+		}
+		if pred(m) {
+			found = true
+			return false
+		}
+		if ce, ok := m.(*ast.CallExpr); ok && depth > 0 {
+			if h := p.helperOf(ce); h != nil && h.Body != nil && p.containsDeep(h.Body, depth-1, pred) {
+				found = true
+				return false
+			}
+		}
+		return true
+	})
+	return found
+}
+
+// c09LoopIndex: the variable a chooser loop advances — incremented by the loop's post statement or by a statement of its
+// body (`x++`, `x += 1`) and used as an index in the loop's condition; "" when there is none
+func c09LoopIndex(fs *ast.ForStmt) string {
+	var cands []string
+	add := func(st ast.Stmt) {
+		switch x := st.(type) {
+		case *ast.IncDecStmt:
+			if id, ok := x.X.(*ast.Ident); ok && x.Tok == token.INC {
+				cands = append(cands, id.Name)
+			}
+		case *ast.AssignStmt:
+			if len(x.Lhs) == 1 && len(x.Rhs) == 1 && x.Tok == token.ADD_ASSIGN {
+				if id, ok := x.Lhs[0].(*ast.Ident); ok {
+					if k, ok := intLit(x.Rhs[0]); ok && k == 1 {
+						cands = append(cands, id.Name)
+					}
+				}
+			}
+		}
+	}
+	if fs.Post != nil {
+		add(fs.Post)
+	}
+	if fs.Body != nil {
+		for _, st := range fs.Body.List {
+			add(st)
+		}
+	}
+	if fs.Cond == nil {
+		return ""
+	}
+	for _, c := range cands {
+		used := false
+		ast.Inspect(fs.Cond, func(m ast.Node) bool {
+			if ie, ok := m.(*ast.IndexExpr); ok {
+				if id, ok := ie.Index.(*ast.Ident); ok && id.Name == c {
+					used = true
+				}
+			}
+			return !used
+		})
+		if used {
+			return c
+		}
+	}
+	return ""
+}
+
+func c09IsChooserLoop(fs *ast.ForStmt) bool {
+	return fs.Cond != nil && (hasSel(fs.Cond, "MaxSrcSize") || hasSel(fs.Cond, "MaxTs"))
+}
+
 func c09IsReceiver(fd *ast.FuncDecl, fun ast.Expr) bool {
 	se, ok := fun.(*ast.SelectorExpr)
 	if !ok || fd.Recv == nil || len(fd.Recv.List) != 1 || len(fd.Recv.List[0].Names) != 1 {
@@ -214,16 +301,60 @@ func init() {
 				}
 			}
 			// the index variable: the one the chooser loops increment
+			// — a loop of truncate itself, or a loop of a helper whose advanced index comes back through the helper's results
+			// (`idx, size = cutBySize(…)`: the result position of the helper's loop variable names the caller's variable)
 			idxVar := ""
-			pp.walk(fd, 2, func(n ast.Node, _ bool) {
-				if fs, ok := n.(*ast.ForStmt); ok && fs.Cond != nil && (hasSel(fs.Cond, "MaxSrcSize") || hasSel(fs.Cond, "MaxTs")) {
-					if inc, ok := fs.Post.(*ast.IncDecStmt); ok && inc.Tok == token.INC {
-						if id, ok := inc.X.(*ast.Ident); ok {
-							idxVar = id.Name
+			ast.Inspect(fd.Body, func(n ast.Node) bool {
+				switch x := n.(type) {
+				case *ast.ForStmt:
+					if c09IsChooserLoop(x) {
+						if v := c09LoopIndex(x); v != "" {
+							idxVar = v
 						}
 					}
+				case *ast.AssignStmt:
+					if len(x.Rhs) != 1 {
+						return true
+					}
+					ce, ok := x.Rhs[0].(*ast.CallExpr)
+					if !ok {
+						return true
+					}
+					h := pp.helperOf(ce)
+					if h == nil || h.Body == nil || h == fd {
+						return true
+					}
+					hv := ""
+					ast.Inspect(h.Body, func(m ast.Node) bool {
+						if fs, ok := m.(*ast.ForStmt); ok && c09IsChooserLoop(fs) {
+							if v := c09LoopIndex(fs); v != "" {
+								hv = v
+							}
+						}
+						return true
+					})
+					if hv == "" {
+						return true
+					}
+					ast.Inspect(h.Body, func(m ast.Node) bool {
+						if rs, ok := m.(*ast.ReturnStmt); ok {
+							for k, r := range rs.Results {
+								if id, ok := r.(*ast.Ident); ok && id.Name == hv && k < len(x.Lhs) {
+									if l, ok := x.Lhs[k].(*ast.Ident); ok {
+										idxVar = l.Name
+									}
+								}
+							}
+						}
+						return true
+					})
 				}
+				return true
 			})
+			if idxVar == "" {
+				problem("partition.Service.truncate: the index variable the chooser loops advance was not found")
+			}
+			deleteFound, sizeLoopFound := false, false
 			decrs := int64(0)            // decrements of the index variable met so far (statement order)
 			copies := map[string]int64{} // n := idx  →  n = orig - copies[n]
 			guardOK := false             // an emptiness-or-DryRun guard that leaves before the deletion was met
@@ -282,6 +413,34 @@ func init() {
 			var stack []ast.Node
 			pp.walk(fd, 2, func(n ast.Node, inHelper bool) {
 				_ = stack
+				// the snapshot of the sizes: a range loop or an index loop (not a chooser loop)
+				var loopBody *ast.BlockStmt
+				switch ls := n.(type) {
+				case *ast.RangeStmt:
+					loopBody = ls.Body
+				case *ast.ForStmt:
+					if !c09IsChooserLoop(ls) {
+						loopBody = ls.Body
+					}
+				}
+				if loopBody != nil {
+					// A[i] = uint64(v.Size()); T += A[i]   (names free)
+					var arr, idx string
+					ast.Inspect(loopBody, func(m ast.Node) bool {
+						as, ok := m.(*ast.AssignStmt)
+						if !ok || len(as.Lhs) != 1 || len(as.Rhs) != 1 {
+							return true
+						}
+						if ie, ok := as.Lhs[0].(*ast.IndexExpr); ok && as.Tok == token.ASSIGN && callsMethod(as.Rhs[0], "Size") {
+							arr, idx = c09Norm(ie.X), c09Norm(ie.Index)
+						}
+						if ie, ok := as.Rhs[0].(*ast.IndexExpr); ok && as.Tok == token.ADD_ASSIGN && arr != "" &&
+							c09Norm(ie.X) == arr && c09Norm(ie.Index) == idx {
+							snapshotSum = true
+						}
+						return true
+					})
+				}
 				switch s := n.(type) {
 				case *ast.CallExpr:
 					// jrnl.Size() anywhere in truncate or its helpers
@@ -291,6 +450,7 @@ func init() {
 						}
 					}
 					if selName(s.Fun) == "DeleteChunks" && len(s.Args) >= 2 {
+						deleteFound = true
 						// the id argument: <list>[E].Id()
 						if ce, ok := s.Args[1].(*ast.CallExpr); ok && selName(ce.Fun) == "Id" {
 							if ie, ok := ce.Fun.(*ast.SelectorExpr).X.(*ast.IndexExpr); ok {
@@ -353,12 +513,12 @@ func init() {
 					}
 					if gt0 && gtMin {
 						// it must contain the size loop
-						ast.Inspect(s.Body, func(m ast.Node) bool {
-							if fs, ok := m.(*ast.ForStmt); ok && fs.Cond != nil && hasSel(fs.Cond, "MaxSrcSize") {
-								sizeGuard = true
-							}
-							return true
-						})
+						if pp.containsDeep(s.Body, 2, func(m ast.Node) bool {
+							fs, ok := m.(*ast.ForStmt)
+							return ok && fs.Cond != nil && hasSel(fs.Cond, "MaxSrcSize")
+						}) {
+							sizeGuard = true
+						}
 					}
 				case *ast.SwitchStmt:
 					if s.Tag == nil {
@@ -412,28 +572,21 @@ func init() {
 					}
 					if isSize {
 						sizeChecksMin = chkMin
+						sizeLoopFound = true
 					}
-				case *ast.RangeStmt:
-					// A[i] = uint64(v.Size()); T += A[i]   (names free)
-					var arr, idx string
-					ast.Inspect(s.Body, func(m ast.Node) bool {
-						as, ok := m.(*ast.AssignStmt)
-						if !ok || len(as.Lhs) != 1 || len(as.Rhs) != 1 {
-							return true
-						}
-						if ie, ok := as.Lhs[0].(*ast.IndexExpr); ok && as.Tok == token.ASSIGN && callsMethod(as.Rhs[0], "Size") {
-							arr, idx = c09Norm(ie.X), c09Norm(ie.Index)
-						}
-						if ie, ok := as.Rhs[0].(*ast.IndexExpr); ok && as.Tok == token.ADD_ASSIGN && arr != "" &&
-							c09Norm(ie.X) == arr && c09Norm(ie.Index) == idx {
-							snapshotSum = true
-						}
-						return true
-					})
 				}
 			})
 			if !strictFound {
 				problem("partition.Service.truncate: comparison of a chunk's MaxTs with OldestTs not found in a loop condition")
+			}
+			if !sizeLoopFound {
+				problem("partition.Service.truncate: the size loop (a loop whose condition compares with MaxSrcSize) not found")
+			}
+			if !deleteFound {
+				problem("partition.Service.truncate: the DeleteChunks call not found")
+			}
+			if !snapshotSum && !readsJournalSize {
+				problem("partition.Service.truncate: neither a snapshot sum of the chunk sizes nor a Size() read of the journal recognised as the total")
 			}
 		}
 
@@ -519,14 +672,15 @@ func init() {
 		if td := funcDecl(f, "Service", "Truncate"); td == nil {
 			problem("partition.Service.Truncate not found")
 		} else {
-			ast.Inspect(td.Body, func(n ast.Node) bool {
+			// the sort.Search call of Truncate itself or of a same-package helper it calls (depth 2)
+			pp.walk(td, 2, func(n ast.Node, _ bool) {
 				ce, ok := n.(*ast.CallExpr)
-				if !ok || c09Norm(ce.Fun) != "sort.Search" || len(ce.Args) != 2 {
-					return true
+				if !ok || c09Norm(ce.Fun) != "sort.Search" || len(ce.Args) != 2 || insertFound {
+					return
 				}
 				fl, ok := ce.Args[1].(*ast.FuncLit)
 				if !ok {
-					return true
+					return
 				}
 				// aliases inside the predicate: si := sortedInfos[idx]
 				alias := map[string]string{}
@@ -547,7 +701,7 @@ func init() {
 					return true
 				})
 				if ret == nil {
-					return false
+					return
 				}
 				insertFound = true
 				// rename the two things whose fields are compared: the element at the searched index → A, the new entry → B
@@ -579,7 +733,6 @@ func init() {
 						insertOK = txt == "A.LatestTs<B.LatestTs||A.LatestTs==B.LatestTs&&A.Src>=B.Src"
 					}
 				}
-				return false
 			})
 			if !insertFound {
 				problem("partition.Service.Truncate: sort.Search predicate of the sorted insertion not found")
